@@ -23,9 +23,16 @@ pub enum Op {
     SplitTerminator(&'static str),
     RSplitTerminator(&'static str),
     SplitKeep(&'static str),
+    ParseU8,
+    ParseI8,
+    ParseU16,
+    ParseI32,
+    ParseU64,
+    ParseBool,
 }
 use Op::*;
 
+pub const PARSE_OPS: [Op; 6] = [ParseU8, ParseI8, ParseU16, ParseI32, ParseU64, ParseBool];
 pub const OPS: [Op; 33] = [
     Skip(1), Skip(2), SkipBack(1), SkipBack(2), Trim, TrimStart, TrimEnd,
     TrimMatches("a"), TrimMatches("ab"), TrimMatches(""), TrimStartMatches("a"), TrimStartMatches("-"), TrimEndMatches("é"), TrimEndMatches("a"),
@@ -54,11 +61,17 @@ impl Op {
             SplitTerminator(p) => format!("[split_terminator,{}]", hex(p.as_bytes())),
             RSplitTerminator(p) => format!("[rsplit_terminator,{}]", hex(p.as_bytes())),
             SplitKeep(p) => format!("[split_keep,{}]", hex(p.as_bytes())),
+            ParseU8 => "[parse_int,8,F]".into(),
+            ParseI8 => "[parse_int,8,T]".into(),
+            ParseU16 => "[parse_int,16,F]".into(),
+            ParseI32 => "[parse_int,32,T]".into(),
+            ParseU64 => "[parse_int,64,F]".into(),
+            ParseBool => "[parse_bool]".into(),
         }
     }
 }
 
-type R<'a> = Result<(Option<&'a str>, Parser<'a>), ParseError<'a>>;
+type R<'a> = Result<(Option<String>, Parser<'a>), ParseError<'a>>;
 
 fn apply<'a>(p: Parser<'a>, op: Op) -> R<'a> {
     Ok(match op {
@@ -76,23 +89,47 @@ fn apply<'a>(p: Parser<'a>, op: Op) -> R<'a> {
         RFindSkip(x) => (None, p.rfind_skip(x)?),
         Split(x) => {
             let (s, q) = p.split(x)?;
-            (Some(s), q)
+            (Some(hex(s.as_bytes())), q)
         }
         RSplit(x) => {
             let (s, q) = p.rsplit(x)?;
-            (Some(s), q)
+            (Some(hex(s.as_bytes())), q)
         }
         SplitTerminator(x) => {
             let (s, q) = p.split_terminator(x)?;
-            (Some(s), q)
+            (Some(hex(s.as_bytes())), q)
         }
         RSplitTerminator(x) => {
             let (s, q) = p.rsplit_terminator(x)?;
-            (Some(s), q)
+            (Some(hex(s.as_bytes())), q)
         }
         SplitKeep(x) => {
             let (s, q) = p.split_keep(x)?;
-            (Some(s), q)
+            (Some(hex(s.as_bytes())), q)
+        }
+        ParseU8 => {
+            let (v, q) = p.parse_u8()?;
+            (Some(v.to_string()), q)
+        }
+        ParseI8 => {
+            let (v, q) = p.parse_i8()?;
+            (Some(v.to_string()), q)
+        }
+        ParseU16 => {
+            let (v, q) = p.parse_u16()?;
+            (Some(v.to_string()), q)
+        }
+        ParseI32 => {
+            let (v, q) = p.parse_i32()?;
+            (Some(v.to_string()), q)
+        }
+        ParseU64 => {
+            let (v, q) = p.parse_u64()?;
+            (Some(v.to_string()), q)
+        }
+        ParseBool => {
+            let (v, q) = p.parse_bool()?;
+            (Some(show_bool(v).to_string()), q)
         }
     })
 }
@@ -126,7 +163,7 @@ pub fn trace(orig: &str, base: usize, ops: &[Op]) -> (String, String) {
                 out.push(format!(
                     "ok({},{},{},{},{},{})",
                     s, e, hex(rem.as_bytes()), dir(q.parse_direction()),
-                    v.map_or("-".to_string(), |x| hex(x.as_bytes())), show_bool(inv)
+                    v.unwrap_or("-".to_string()), show_bool(inv)
                 ));
                 if rem.len() != before.len() {
                     changed += 1;
@@ -168,6 +205,7 @@ pub fn free_fn<'a>(prev: &'a str, op: Op) -> Option<Option<&'a str>> {
         Split(x) | SplitTerminator(x) => kstr::split_once(prev, x).map(|p| p.1),
         RSplit(x) | RSplitTerminator(x) => kstr::rsplit_once(prev, x).map(|p| p.0),
         SplitKeep(x) => kstr::find(prev, x).map(|i| &prev[i..]),
+        ParseU8 | ParseI8 | ParseU16 | ParseI32 | ParseU64 | ParseBool => return None,
     })
 }
 
@@ -201,12 +239,45 @@ pub fn run(cfg: &Cfg, out: &mut Out) {
             }
         }
     }
+    // parse_* operations: every pair with at least one parse op, on digit-bearing strings
+    // (base 7) and on the letter strings (errors after from-the-end operations)
+    let dalpha = ['1', '2', '-', 'a', ' '];
+    let dstrs = all_strings(&dalpha, if cfg.thorough { 4 } else { 3 });
+    let mut allops: Vec<Op> = OPS.to_vec();
+    allops.extend(PARSE_OPS.iter());
+    for (set, bases) in [(&dstrs, &[0usize, 7][..]), (&strs, &[7usize][..])] {
+        for s in set.iter() {
+            for &base in bases {
+                for a in PARSE_OPS {
+                    emit(out, s, base, &[a]);
+                }
+                for &a in &allops {
+                    for &b in &allops {
+                        let pa = matches!(a, ParseU8 | ParseI8 | ParseU16 | ParseI32 | ParseU64 | ParseBool);
+                        let pb = matches!(b, ParseU8 | ParseI8 | ParseU16 | ParseI32 | ParseU64 | ParseBool);
+                        if pa || pb {
+                            emit(out, s, base, &[a, b]);
+                        }
+                    }
+                }
+            }
+        }
+    }
+    for s in ["true", "false", "truefalse", "tru", " true", "255", "256", "-128", "-129", "65535x", "18446744073709551616", "007 ", "-0-"] {
+        for a in PARSE_OPS {
+            for b in PARSE_OPS {
+                emit(out, s, 0, &[a, b]);
+            }
+            emit(out, s, 0, &[TrimStart, a]);
+            emit(out, s, 0, &[SkipBack(1), a]);
+        }
+    }
     // depth 3 and long sequences, seeded random
     let mut rng = Rng::new(cfg.seed ^ 0x13);
     let n3 = if cfg.thorough { 400_000 } else { 40_000 };
     for _ in 0..n3 {
-        let s = rng.pick(&strs).clone();
-        let ops = [*rng.pick(&OPS), *rng.pick(&OPS), *rng.pick(&OPS)];
+        let s = if rng.below(3) == 0 { rng.pick(&dstrs).clone() } else { rng.pick(&strs).clone() };
+        let ops = [*rng.pick(&allops), *rng.pick(&allops), *rng.pick(&allops)];
         emit(out, &s, *rng.pick(&[0usize, 7, 1000]), &ops);
     }
     let nl = if cfg.thorough { 20_000 } else { 3_000 };
@@ -214,7 +285,7 @@ pub fn run(cfg: &Cfg, out: &mut Out) {
         let len = rng.below(12) as usize;
         let s: String = (0..len).map(|_| *rng.pick(&alpha)).collect();
         let k = 1 + rng.below(12) as usize;
-        let ops: Vec<Op> = (0..k).map(|_| *rng.pick(&OPS)).collect();
+        let ops: Vec<Op> = (0..k).map(|_| *rng.pick(&allops)).collect();
         emit(out, &s, *rng.pick(&[0usize, 7]), &ops);
     }
 }
